@@ -73,6 +73,15 @@ CHECKS["C19"] = dict(
     note="Trusted: pysym interpreter/models (the oracle dictionary is the engine's dict model), z3.",
     ref="§4 C19")
 
+CHECKS["C16"] = dict(
+    text="For every kind sequence of up to 3 (thorough 4) blocks over the six block kinds (plus selected length-4 sequences), five type orders and both comment modes, the keys of all keyed blocks are symbolic over {a,b} (collisions create duplicate wrappers); the real middleware (stable-sort model calling the interpreted key closures, interpreted deepcopy) runs next to an oracle transcribed from the statement and z3 decides per final world that the output is exactly the expected permutation of unaltered copies and that the input library is untouched.",
+    note="Trusted: pysym interpreter/models incl. the list.sort model, z3.",
+    ref="§4 C16")
+CHECKS["C08"] = dict(
+    text="Every history of up to 3 (thorough 4) calls from a 35-shape operation space (add / add with fail_on_duplicate_key / list add / remove / list remove / replace in both fail modes, arguments from a 7-block universe or the held blocks) is executed symbolically with all Entry/String keys symbolic over {a,b}; after every call an interpreted transcription of the statement decides the block list, the representation invariant, all views and rollback on ValueError. One call site is a recorded known finding (add with fail_on_duplicate_key=True mutates before raising).",
+    note="Trusted: pysym interpreter/models (list.remove/index call the interpreted Block.__eq__), z3. Known finding listed in known_findings.json.",
+    ref="§4 C08")
+
 NOT_YET = "check not built yet in this round (engine exists; harness pending)"
 
 def main():
